@@ -187,8 +187,16 @@ def rule_executables(chk, rid):
                   "argument is the state iff pass_state else state.get(); non-State results are wrapped by state.with_data(result)")
     m = repo.module(CMD)
     ce = repo.func(CMD, "CommandExecutable.__call__")
-    txt = U(ce).replace('"', "'")
-    ok = "state if self.metadata.state_argument['pass_state'] else state.get()" in txt and "self.f(state_arg, *argv)" in txt
+    from ..lib import conditional_values
+    from ..cfg import CFG as _CFG
+    ccfg = _CFG(ce)
+    fcalls = [c for c in calls_in(ce) if call_name(c) == "self.f"]
+    ok = len(fcalls) == 1 and len(fcalls[0].args) == 2 and isinstance(fcalls[0].args[1], ast.Starred) and U(fcalls[0].args[1].value) == "argv"
+    if ok:
+        alts = conditional_values(ccfg, fcalls[0].args[0], ccfg.node_of(fcalls[0]))
+        PS = "self.metadata.state_argument['pass_state']"
+        got = {(U(v), (PS, True) in {(t.replace('"', "'"), p) for t, p in f}, (PS, False) in {(t.replace('"', "'"), p) for t, p in f}) for v, f in alts}
+        ok = got == {("state", True, False), ("state.get()", False, True)}
     chk.ob(rid, f"{CMD}.CommandExecutable.__call__", ok, "f(state if pass_state else state.get(), *argv)", ce, m, key="command-call")
     fe = repo.func(CMD, "FirstCommandExecutable.__call__")
     chk.ob(rid, f"{CMD}.FirstCommandExecutable.__call__", "self.f(*argv)" in U(fe), "first command: f(*argv)", fe, m, key="first-call")
